@@ -3,7 +3,7 @@
    `exported tg k t` evaluates the Jinja expression from which target tg's template renders constant k (template scan,
    Generated/Gen_C05.v) with the T2-translated filters; `filter_*`, `get_best_fit` are the translated functions of /repo. *)
 From Coq Require Import List NArith ZArith Bool.
-From Verif Require Import Str Wire WireThm Walker MetaC05Base Gen_C05 MetaC05 MetaC05Thm MetaC05LitThm.
+From Verif Require Import Str Wire WireThm Walker MetaC05Base Gen_C05 MetaC05 MetaC05Thm MetaC05LitThm MetaC05StoThm.
 Import ListNotations.
 Local Open Scope Z_scope.
 
@@ -24,7 +24,7 @@ Proof. exact best_fit_spec. Qed.
 Print Assumptions c05_best_fit_spec.
 
 Theorem c05_best_fit_is_walker_std_width : forall w, (1 <= w <= 64)%nat ->
-  filter_to_standard_bit_length {| pty_kind := KUInt; pty_bit_length := Z.of_nat w |} = Some (Z.of_nat (std_width w)).
+  filter_to_standard_bit_length (mk_pty KUInt (Z.of_nat w)) = Some (Z.of_nat (std_width w)).
 Proof. exact best_fit_is_walker_std_width. Qed.
 Print Assumptions c05_best_fit_is_walker_std_width.
 
@@ -149,6 +149,70 @@ Theorem c05_float_operands_in_range_refuted : exists n d,
 Proof. exact float_operands_in_range_refuted. Qed.
 Print Assumptions c05_float_operands_in_range_refuted.
 
+(* emit conditions: every constant is rendered under the `has_*` / loop condition it needs, never under a truthiness test *)
+Theorem c05_emit_ok : emit_ok = true.
+Proof. exact emit_ok_holds. Qed.
+Print Assumptions c05_emit_ok.
+
+(* the fixed port id exported by C, C++ and Python is the DSDL one for every p -- including the port id 0 -- and absent iff the type
+   has none *)
+Theorem c05_exported_port_exact : forall tg p, In tg all_targets -> exported_port tg p = Some p.
+Proof. exact exported_port_exact. Qed.
+Print Assumptions c05_exported_port_exact.
+
+(* storage types (C01's storage_ok proviso): the declared type of every integer primitive is [u]int<std_width w>_t (C) resp.
+   std::[u]int<std_width w>_t (C++), with the signedness of the DSDL type and Walker.std_width as the width *)
+Theorem c05_c_storage_type_int : forall unsigned w cm, (1 <= w <= 64)%nat ->
+  c_filter_type_from_primitive c_lang (prim_pty (int_kind unsigned) w cm) = Some (std_int_name [] unsigned w).
+Proof. exact c_storage_type_int. Qed.
+Print Assumptions c05_c_storage_type_int.
+
+Theorem c05_cpp_storage_type_int : forall unsigned w cm, (1 <= w <= 64)%nat ->
+  cpp_filter_type_from_primitive cpp_lang (prim_pty (int_kind unsigned) w cm) = Some (std_int_name s_std unsigned w).
+Proof. exact cpp_storage_type_int. Qed.
+Print Assumptions c05_cpp_storage_type_int.
+
+Theorem c05_storage_type_float : forall cm,
+  c_filter_type_from_primitive c_lang (prim_pty KFloat 16 cm) = Some s_float /\
+  c_filter_type_from_primitive c_lang (prim_pty KFloat 32 cm) = Some s_float /\
+  c_filter_type_from_primitive c_lang (prim_pty KFloat 64 cm) = Some s_double /\
+  cpp_filter_type_from_primitive cpp_lang (prim_pty KFloat 16 cm) = Some s_float /\
+  cpp_filter_type_from_primitive cpp_lang (prim_pty KFloat 32 cm) = Some s_float /\
+  cpp_filter_type_from_primitive cpp_lang (prim_pty KFloat 64 cm) = Some s_double /\
+  c_named_float_32 = s_float /\ c_named_float_64 = s_double /\ cpp_named_float_32 = s_float /\ cpp_named_float_64 = s_double.
+Proof. exact storage_type_float. Qed.
+Print Assumptions c05_storage_type_float.
+
+Theorem c05_storage_type_bool : forall cm,
+  c_filter_type_from_primitive c_lang (prim_pty KBool 1 cm) = Some s_bool /\
+  cpp_filter_type_from_primitive cpp_lang (prim_pty KBool 1 cm) = Some s_bool.
+Proof. exact storage_type_bool. Qed.
+Print Assumptions c05_storage_type_bool.
+
+Theorem c05_storage_type_too_wide : forall k w cm, (64 < w)%nat ->
+  c_filter_type_from_primitive c_lang (prim_pty k w cm) = None /\ cpp_filter_type_from_primitive cpp_lang (prim_pty k w cm) = None.
+Proof. exact storage_type_too_wide. Qed.
+Print Assumptions c05_storage_type_too_wide.
+
+Theorem c05_cpp_standard_bit_length_is_c : forall t, cpp_filter_to_standard_bit_length t = filter_to_standard_bit_length t.
+Proof. exact cpp_standard_bit_length_is_c. Qed.
+Print Assumptions c05_cpp_standard_bit_length_is_c.
+
+Theorem c05_is_saturated_spec : forall t,
+  is_saturated t = if py_isinstance t C_PrimitiveType
+                   then Some (match pty_cast_mode t with CM_SATURATED => true | CM_TRUNCATED => false end) else None.
+Proof. exact is_saturated_spec. Qed.
+Print Assumptions c05_is_saturated_spec.
+
+(* cast formats of properties.yaml; the C++ literal / constant filters and the C constant filter merely delegate to the C
+   filter_literal (shape pins of the translator) *)
+Theorem c05_cast_formats_pinned :
+  c_cast_format = [40; 40; 123; 116; 121; 112; 101; 125; 41; 32; 123; 118; 97; 108; 117; 101; 125; 41]%N /\
+  cpp_cast_format = [115; 116; 97; 116; 105; 99; 95; 99; 97; 115; 116; 60; 123; 116; 121; 112; 101; 125; 62; 40; 123; 118; 97; 108; 117;
+                     101; 125; 41]%N /\ literal_filters_delegate = true.
+Proof. exact cast_formats_pinned. Qed.
+Print Assumptions c05_cast_formats_pinned.
+
 (* non-vacuity *)
 Definition ex05_inner : ty := TComp false [TPrim (PU 3 true); TVar (TPrim (PS 13 true)) 300] (Some 4912%nat).
 Definition ex05_outer : ty := TComp true [TPrim (PF 16 true); ex05_inner; TFix (TPrim PBool) 9] None.
@@ -162,6 +226,12 @@ Proof. vm_compute. repeat split; reflexivity. Qed.
 Example c05_example_too_small :
   ser_spec ex05_outer (VUnion 0 (VFlt 0%N)) 618 = Err ETooSmall /\ exists b, ser_spec ex05_outer (VUnion 0 (VFlt 0%N)) 619 = Ok b.
 Proof. split; [vm_compute; reflexivity|]. eexists. vm_compute. reflexivity. Qed.
+Example c05_example_storage :
+  c_filter_type_from_primitive c_lang (prim_pty KUInt 13 CM_TRUNCATED) = Some [117; 105; 110; 116; 49; 54; 95; 116]%N /\
+  cpp_filter_type_from_primitive cpp_lang (prim_pty KSInt 33 CM_SATURATED) =
+    Some [115; 116; 100; 58; 58; 105; 110; 116; 54; 52; 95; 116]%N /\
+  exported_port TgtC (Some 0) = Some (Some 0) /\ exported_port TgtPy None = Some None.
+Proof. vm_compute. repeat split; reflexivity. Qed.
 Example c05_example_literals :
   const_int_denotes dm_ip16 false 64 (-9223372036854775808) = Some (CLLong, -9223372036854775808) /\
   const_int_denotes dm_ilp32 true 64 18446744073709551615 = Some (CULLong, 18446744073709551615) /\
